@@ -155,11 +155,12 @@ def run(ctx):
     _c03.run(Proxy(ctx, ("C03-body", "C03-eob", "C03-trl", "C03-split"), "C01-q"))
     _c12.run(Proxy(ctx, ("C12-a", "C12-d"), "C01-v"))
     _c10.run(Proxy(ctx, ("C10-a", "C10-b"), "C01-v"))       # sender and receiver account for and compare the section size alike
-    _c14.run(Proxy(ctx, ("C14-a", "C14-b", "C14-e"), "C01-w", exclude=("h3_datagram",)))     # datagrams are not messages
-    _c17.run(Proxy(ctx, ("C17-a", "C17-b"), "C01-t"))
+    if "h3_quinn" in prog.crates:        # (anchored in the adapter / extension crates: not part of the feature-less h3-only configuration)
+        _c14.run(Proxy(ctx, ("C14-a", "C14-b", "C14-e"), "C01-w", exclude=("h3_datagram",)))     # datagrams are not messages
+        _c17.run(Proxy(ctx, ("C17-a", "C17-b"), "C01-t"))
     from rules import C06 as _c06, C11 as _c11, C15 as _c15
     # a body or field section that is buffered but never handed over is not delivered: the Pending-implies-registered rule on the
     # functions a message passes through; and the field-section codec clauses on the encoder side (what is written is what was given)
     _c06.run(Proxy(ctx, ("C06-b",), "C01-s", only=("h3::frame::", "h3::stream::", "h3::connection::RequestStream", "h3::client::stream", "h3::server::stream", "h3_quinn::")))
-    _c11.run(Proxy(ctx, ("C11-f",), "C01-v"))
+    _c11.run(Proxy(ctx, ("C11-f", "C11-a"), "C01-v"))       # .. and the static table both sides index into (RFC 9204 Appendix A)
     _c15.run(Proxy(ctx, ("C15-c",), "C01-v"))
